@@ -292,7 +292,7 @@ type runner struct {
 	prevCase kase
 }
 
-const nSpaces = 9
+const nSpaces = 10
 
 func (r *runner) space(name string) {
 	r.ctx.Space(name)
@@ -413,6 +413,36 @@ func (r *runner) xmlStringSpace(maxSym int) {
 	}
 	ctx.SpaceDone(fmt.Sprintf("XML exporter: every string of <= %d symbols over the %d-symbol markup alphabet (%d distinct strings, legal XML characters only) as list entry (x %d list representations), as value / key of a simple map, key of an entry element, entry text (x %d map representations), as File name / mime type, Link target and style string, as field of a Go struct behind a reflection map wrapper (alone and in a NewListOfMaps list; these also through ToHtml)",
 		maxSym, len(et.XMLAlphabet), len(strs), et.NListReps, et.NMapReps))
+}
+
+// longStringSpace: every symbol of the markup alphabet behind a filler of every length (buffers, chunking and
+// offsets inside a writer are invisible to short strings), XML exporter and ToHtml.
+func (r *runner) longStringSpace(maxLen int) {
+	ctx := r.ctx
+	r.space("long-strings")
+	var idx int64
+	for p := 0; p <= maxLen; p++ {
+		for _, fill := range []string{"x", "\u00e9"} {
+			for _, sym := range et.XMLAlphabet {
+				idx++
+				if !ctx.Mine(idx) {
+					continue
+				}
+				if ctx.Expired() {
+					return
+				}
+				for _, suf := range []string{"", "amp;", "#65;"} {
+					s := strings.Repeat(fill, p) + sym + suf
+					r.check(kase{n: et.L(et.LEager, et.S(s))}, false, p%23 == 4)
+					r.check(kase{n: et.M(et.MListMap, []string{"k"}, et.S(s))}, false, false)
+					r.check(kase{n: et.M(et.MListMap, []string{s}, et.L(et.LEager))}, false, false)
+					r.check(kase{n: et.L(et.LEager, et.S(s)), html: true, max: 10, inline: true}, false, false)
+					r.check(kase{n: et.L(et.LEager, et.Lnk(s, et.S(s))), html: true, max: 10, inline: false}, false, false)
+				}
+			}
+		}
+	}
+	ctx.SpaceDone(fmt.Sprintf("every symbol of the %d-symbol markup alphabet behind a filler (x, \u00e9) of every length 0..%d, followed by nothing / 'amp;' / '#65;': XML list entry, attribute value, key attribute; ToHtml cell, link target and text", len(et.XMLAlphabet), maxLen))
 }
 
 func sstr(s string) *et.Style { return &et.Style{K: et.SStr, S: s} }
@@ -765,12 +795,14 @@ func run(ctx *bex.Ctx) {
 	if ctx.Quick() {
 		r.xmlStringSpace(2)
 		r.htmlStringSpace(2)
+		r.longStringSpace(150)
 		r.wrappers([]et.Kind{et.Str, et.Int, et.File}, quickWr, 2, []int{1, 2})
 		r.trees(3, et.NMapReps, 1)
 		r.deep(2, 3)
 	} else {
 		r.xmlStringSpace(3)
 		r.htmlStringSpace(3)
+		r.longStringSpace(700)
 		r.wrappers([]et.Kind{et.Str, et.Int, et.File, et.Float}, allWr, 2, []int{1, 2, 3})
 		r.trees(3, et.NMapReps, et.NMapReps)
 		r.deep(3, 1)
